@@ -496,6 +496,14 @@ def class_change(ctx, rng, mod):
         if ia.get(k) != v:
             ctx.violation("class_path", "class-change-loses-valid-init_arg", dict(argv=argv, parameter=k, expected=v, result=short(a)))
             return
+    # what no source configured has the default of the class that was finally chosen, not of one named before it
+    given = {t.split("=")[0].split(".")[-1] for t in argv if t.startswith("--a.")}
+    for k, prm in inspect.signature(cls.__init__).parameters.items():
+        if k in ia and k not in given and prm.default is not inspect.Parameter.empty and prm.kind == prm.POSITIONAL_OR_KEYWORD:
+            ctx.count("mon.class_change_untouched_parameter_has_own_default")
+            if ia[k] != prm.default:
+                ctx.violation("class_path", "class-change-keeps-default-of-previous-class", dict(argv=argv, parameter=k, expected=prm.default, result=short(a)))
+                return
     check_instantiation(ctx, mod, p, o.value, cls, must, None, dict(kind="class-change", argv=argv))
     # a class change in one parse leaves the declared default spec alone: the next plain parse on the same parser gives the
     # default class with its configured init_args, as a fresh parser does
